@@ -35,6 +35,9 @@ struct Ctx {
     /// address of a node's buffer slice -> (node id, number of buffers)
     addr: RefCell<HashMap<usize, (usize, usize)>>,
     anomalies: RefCell<Vec<String>>,
+    /// the node that panics inside `Node::process` during the current call (after its inputs were
+    /// logged, before it writes its output), if any
+    panic_at: std::cell::Cell<Option<usize>>,
 }
 
 struct Instr { id: usize, ctx: Rc<Ctx> }
@@ -64,8 +67,10 @@ impl Node for Instr {
             vals.push(v as u64);
         }
         let v = hash_node(self.id, &vals) as f32;
-        for b in output.iter_mut() { for s in b.iter_mut() { *s = v; } }
         self.ctx.log.borrow_mut().push((self.id, ids, vals));
+        drop(addr);
+        if self.ctx.panic_at.get() == Some(self.id) { panic!("instrumented node {} fails on request", self.id); }
+        for b in output.iter_mut() { for s in b.iter_mut() { *s = v; } }
     }
 }
 
@@ -135,6 +140,7 @@ struct Case {
     removed: Vec<usize>,                // stable graphs only
     init: Vec<u64>,
     roots: Vec<usize>,                  // a root that is not an existing node may only come last (panics)
+    aborts: Vec<(usize, usize)>,        // (call index, node): that node panics inside Node::process during that call
     label: String,                      // generator description (printed instead of the edge list for big cases)
 }
 
@@ -202,11 +208,15 @@ fn run_case<C: Cont>(st: &mut Stream, proc_: &mut Processor<C>, c: &Case) {
     for l in &inc { op.push(' '); op.push_str(&show_list(l)); }
     for l in &outg { op.push(' '); op.push_str(&show_list(l)); }
     op.push(' '); op.push_str(&show_list64(&init));
-    op.push(' '); op.push_str(&show_list(&c.roots));
+    op.push(' ');
+    if c.roots.is_empty() { op.push('-'); } else {
+        let toks: Vec<String> = c.roots.iter().enumerate().map(|(i, r)| match c.aborts.iter().find(|a| a.0 == i) { Some(a) => format!("{}!{}", r, a.1), None => r.to_string() }).collect();
+        op.push_str(&toks.join(","));
+    }
     let case_txt = if c.edges.len() <= 80 {
-        format!("{} n={} edges={:?} dropped={:?} removed={:?} roots={:?}", C::NAME, c.n, c.edges, c.drop_edges, c.removed, c.roots)
+        format!("{} n={} edges={:?} dropped={:?} removed={:?} roots={:?} failing-nodes(call,node)={:?}", C::NAME, c.n, c.edges, c.drop_edges, c.removed, c.roots, c.aborts)
     } else {
-        format!("{} {} n={} |edges|={} first edges={:?}… dropped={:?} removed={:?} roots={:?} (regenerate with the same seed/tier; the full request line is in the stream)", C::NAME, c.label, c.n, c.edges.len(), &c.edges[..12], c.drop_edges, c.removed, c.roots)
+        format!("{} {} n={} |edges|={} first edges={:?}… dropped={:?} removed={:?} roots={:?} failing-nodes(call,node)={:?} (regenerate with the same seed/tier; the full request line is in the stream)", C::NAME, c.label, c.n, c.edges.len(), &c.edges[..12], c.drop_edges, c.removed, c.roots, c.aborts)
     };
 
     // harness assumption about petgraph: the adjacency it reports is the edge multiset we built
@@ -222,12 +232,19 @@ fn run_case<C: Cont>(st: &mut Stream, proc_: &mut Processor<C>, c: &Case) {
     let mut shadow: Vec<u64> = init.clone();       // what every node's buffers currently hold, per the log
     let mut first_log: BTreeMap<usize, Vec<usize>> = BTreeMap::new();   // root -> invocation order of its first call
     let mut prev: Option<(usize, Vec<u64>)> = None;                      // (root, buffers) of the previous call
+    let mut last_bufs: Vec<u64> = init.clone();                          // buffers as the previous call (completed or unwound) left them
     let mut nontrivial = !c.removed.is_empty();
-    for &root in &c.roots {
+    for (call_ix, &root) in c.roots.iter().enumerate() {
         ctx.log.borrow_mut().clear();
+        let failing = c.aborts.iter().find(|a| a.0 == call_ix).map(|a| a.1);
+        ctx.panic_at.set(failing);
         let ok = guarded(|| g.run(proc_, root)).is_some();
+        ctx.panic_at.set(None);
         let exists = root < bound && live[root];
-        if !ok {
+        // did the failing user node get invoked (and unwind the call)?
+        let aborted = !ok && exists && failing.is_some() && ctx.log.borrow().last().map(|l| Some(l.0) == failing).unwrap_or(false);
+        if aborted { st.count("call_unwound_by_failing_user_node"); nontrivial = true; }
+        if !ok && !aborted {
             obs.push("panic".into());
             st.count("panic");
             if exists { st.oracle_fail("process panicked on an existing output node", &case_txt, "no panic", "panic"); }
@@ -250,8 +267,32 @@ fn run_case<C: Cont>(st: &mut Stream, proc_: &mut Processor<C>, c: &Case) {
                 bufs_now.push(v as u64);
             } else { bufs_now.push(0); }
         }
-        obs.push(format!("{}={}", if parts.is_empty() { "-".into() } else { parts.join("|") }, show_list64(&bufs_now)));
+        obs.push(format!("{}{}={}", if aborted { "unwound:" } else { "" }, if parts.is_empty() { "-".into() } else { parts.join("|") }, show_list64(&bufs_now)));
         if !exists { continue; }
+        if aborted {
+            // the unwound call: every invocation up to and including the failing node still had to be
+            // "given exactly one input per incoming edge from a different node", no node twice, only upstream nodes
+            let up = upstream(bound, &edges, root);
+            let mut seen = vec![false; bound];
+            for (n, ids, vals) in log.iter() {
+                if seen[*n] || !up[*n] { st.oracle_fail("unwound call: a node outside the upstream set was invoked, or one twice", &case_txt, "", &format!("node {}", n)); }
+                seen[*n] = true;
+                let want: Vec<usize> = sorted(edges.iter().filter(|e| e.1 == *n && e.0 != *n).map(|e| e.0).collect());
+                let got: Option<Vec<usize>> = ids.iter().cloned().collect();
+                match got {
+                    Some(got_ids) if sorted(got_ids.clone()) == want => {
+                        st.oracle_ok(1);
+                        for (j, &i) in got_ids.iter().enumerate() { if vals[j] != shadow[i] { st.oracle_fail("an input does not show the neighbour's current buffer contents", &case_txt, &format!("node {} input {} (node {}) = {}", n, j, i, shadow[i]), &vals[j].to_string()); } }
+                    }
+                    other => st.oracle_fail("inputs of an invocation differ from one per incoming edge from a different node", &case_txt, &format!("node {}: {:?}", n, want), &format!("{:?}", other)),
+                }
+                if Some(*n) != failing { shadow[*n] = hash_node(*n, vals); }
+            }
+            if shadow != bufs_now { st.oracle_fail("node buffers after the unwound call differ from what the invoked nodes wrote", &case_txt, &format!("{:?}", shadow), &format!("{:?}", bufs_now)); }
+            prev = None;
+            last_bufs = bufs_now.clone();
+            continue;
+        }
 
         // ---- oracle, from the property text
         let up = upstream(bound, &edges, root);
@@ -293,7 +334,7 @@ fn run_case<C: Cont>(st: &mut Stream, proc_: &mut Processor<C>, c: &Case) {
             for &(a, b) in &edges { if up[b] && !(pos[a] < pos[b]) { bad = true; st.oracle_fail("a node was processed before a node that feeds it (acyclic upstream subgraph)", &case_txt, &format!("{} before {}", a, b), &format!("{:?}", order)); break; } }
             if !bad && inputs_ok {
                 // recursive functional evaluation (memoised), inputs in the order they were presented
-                let before: Vec<u64> = match &prev { Some((_, b)) => b.clone(), None => init.clone() };
+                let before: Vec<u64> = last_bufs.clone();
                 let mut memo: Vec<Option<u64>> = vec![None; bound];
                 fn eval(v: usize, log: &[(usize, Vec<Option<usize>>, Vec<u64>)], pos: &[usize], memo: &mut Vec<Option<u64>>) -> u64 {
                     if let Some(x) = memo[v] { return x; }
@@ -316,6 +357,7 @@ fn run_case<C: Cont>(st: &mut Stream, proc_: &mut Processor<C>, c: &Case) {
             if *r0 == root && dag && *b0 != bufs_now { st.oracle_fail("second process call (acyclic) changed the buffers", &case_txt, &format!("{:?}", b0), &format!("{:?}", bufs_now)); }
         }
         prev = Some((root, bufs_now.clone()));
+        last_bufs = bufs_now.clone();
         // non-triviality (the existing tests build trees feeding one or two sums)
         let n_up = want_set.len();
         let shared = (0..bound).any(|a| up[a] && edges.iter().filter(|e| e.0 == a && up[e.1]).count() >= 2);
@@ -360,8 +402,16 @@ fn exhaustive<C: Cont>(st: &mut Stream, proc_: &mut Processor<C>, n: usize, maxm
         for root in 0..n {
             if removed.contains(&root) { continue; }
             let init: Vec<u64> = (0..n).map(|i| 100 + 7 * i as u64).collect();
-            let c = Case { n, edges: edges.clone(), drop_edges: vec![], removed: removed.clone(), init, roots: vec![root, root], label: String::new() };
+            let c = Case { n, edges: edges.clone(), drop_edges: vec![], removed: removed.clone(), init, roots: vec![root, root], aborts: vec![], label: String::new() };
             run_case(st, proc_, &c);
+            // the same with a user node that fails during the first call (every node in turn): the unwound
+            // call must leave the processor usable, the second call is an ordinary one
+            for k in 0..n {
+                if removed.contains(&k) { continue; }
+                let init: Vec<u64> = (0..n).map(|i| 100 + 7 * i as u64).collect();
+                let c = Case { n, edges: edges.clone(), drop_edges: vec![], removed: removed.clone(), init, roots: vec![root, root], aborts: vec![(0, k)], label: String::new() };
+                run_case(st, proc_, &c);
+            }
         }
     }
     st.count_n(&format!("exhaustive_{}_n{}_mult{}{}", C::NAME, n, maxm, if with_removal { "_one_removed" } else { "" }), total);
@@ -402,7 +452,16 @@ fn random_case<C: Cont>(rng: &mut Rng) -> Case {
         } else { roots.push(n + rng.usize_below(3)); }
     }
     let init: Vec<u64> = (0..n).map(|_| rng.below(4093)).collect();
-    Case { n, edges, drop_edges, removed, init, roots, label: String::new() }
+    // a user node that panics during one of the calls (caught by the caller, processor reused)
+    let mut aborts = Vec::new();
+    let n_real = roots.iter().filter(|&&r| r < n && !removed.contains(&r)).count();
+    if n_real > 0 && rng.chance(1, 3) {
+        for _ in 0..1 + rng.usize_below(2) {
+            let i = rng.usize_below(n_real);
+            if !aborts.iter().any(|a: &(usize, usize)| a.0 == i) { aborts.push((i, *rng.pick(&livev))); }
+        }
+    }
+    Case { n, edges, drop_edges, removed, init, roots, aborts, label: String::new() }
 }
 
 
@@ -427,7 +486,7 @@ fn big_dense_case(rng: &mut Rng, kind: &str, n: usize, order: &str) -> Case {
     }
     let root = if kind == "dense-cyclic" { rng.usize_below(n) } else { n - 1 - rng.usize_below(2) };
     let init: Vec<u64> = (0..n).map(|_| rng.below(4093)).collect();
-    Case { n, edges, drop_edges: vec![], removed: vec![], init, roots: vec![root, root], label: format!("big-{} order={}", kind, order) }
+    Case { n, edges, drop_edges: vec![], removed: vec![], init, roots: vec![root, root, root], aborts: if n % 2 == 0 { vec![(1, n / 2)] } else { vec![] }, label: format!("big-{} order={}", kind, order) }
 }
 
 /// WIDE nodes: one hub with `k_inputs` incoming edges from `distinct` different sources (the surplus are
@@ -445,7 +504,7 @@ fn wide_case(rng: &mut Rng, k_inputs: usize, distinct: usize) -> Case {
     edges.push((hub, sink));
     shuffle(rng, &mut edges);
     let init: Vec<u64> = (0..n).map(|_| rng.below(4093)).collect();
-    Case { n, edges, drop_edges: vec![], removed: vec![], init, roots: vec![hub, hub, sink], label: format!("wide inputs={} distinct={}", k_inputs, distinct) }
+    Case { n, edges, drop_edges: vec![], removed: vec![], init, roots: vec![hub, hub, sink, hub], aborts: if k_inputs % 2 == 0 { vec![(1, hub)] } else { vec![(2, sink)] }, label: format!("wide inputs={} distinct={}", k_inputs, distinct) }
 }
 
 /// the big cases run on FRESH processors created with a small or a large `with_capacity`
